@@ -79,7 +79,15 @@ def main(tier, seed):
             return float(fn(a, b))
         for r in range(reps):
             n = 1 if r % 7 == 0 else rng.randint(2, 7)
+            long_vec = (r % 10 == 9)
+            if long_vec:
+                # long feature vectors (deep / histogram features): running sums and products over hundreds of coordinates
+                n = rng.choice([33, 64, 130, 154, 260, 1030])
             x, y, z = triple(rng, dom, n)
+            if long_vec and dom != "prob":
+                sc = rng.choice([1.0, 100.0, 1000.0])
+                x, y, z = [v * sc for v in x], [v * sc for v in y], [v * sc for v in z]
+                stats["long_vectors"] = stats.get("long_vectors", 0) + 1
             adt = float
             if r % 5 == 3 and dom != "prob":
                 # whole-number data (counts, histograms, pixel values) handed over as an integer array; bins that are empty
